@@ -47,10 +47,12 @@ def Db.swPrepareIncremental (d : Db) : Except SwErr SwState :=
   | none => .ok {}
   | some (i, _) => if i == 0 then .error .needsFlatten else .ok { prevLevel := i }
 
-/-- the value struct `handleRequests` builds: the value-pointer bit is *added* for values at or
-    above the threshold and otherwise left as it came (not cleared). -/
+/-- the value struct `handleRequests` builds: a value below the threshold is stored inline with
+    the value-pointer bit cleared (as `DB.writeToLSM` does; before the fix of F26 the bit was
+    left as it came), a value at or above it goes to the value log and gets the bit. -/
 def Db.swForm (d : Db) (e : Ent) : Ent :=
-  if e.val.length < d.opts.threshold then e else { e with emeta := setBit e.emeta bitValuePointer }
+  if e.val.length < d.opts.threshold then { e with emeta := clearBit e.emeta bitValuePointer }
+  else { e with emeta := setBit e.emeta bitValuePointer }
 
 def swAdd (ws : List SWriter) (sid : Nat) (e : Ent) : List SWriter :=
   if ws.any (·.sid == sid) then ws.map (fun w => if w.sid == sid then { w with ents := w.ents ++ [e] } else w)
